@@ -171,6 +171,21 @@ fn main() {
                 println!("VIOLATION property={prop} replay={path}");
                 std::process::exit(1);
             });
+            {
+                // a replay normally takes milliseconds: 60 s of CPU time means the recorded call diverges
+                let path = args[2].clone();
+                std::thread::spawn(move || loop {
+                    std::thread::sleep(Duration::from_millis(500));
+                    let mut ts: libc::timespec = unsafe { std::mem::zeroed() };
+                    unsafe { libc::clock_gettime(libc::CLOCK_PROCESS_CPUTIME_ID, &mut ts) };
+                    if ts.tv_sec >= 60 {
+                        let prop = std::fs::read_to_string(&path).ok().and_then(|s| serde_json::from_str::<Value>(&s).ok()).and_then(|v| v["property"].as_str().map(|s| s.to_string())).unwrap_or_default();
+                        println!("observed: the replayed call sequence does not return (60 s of CPU time)");
+                        println!("VIOLATION property={prop} replay={path}");
+                        std::process::exit(1);
+                    }
+                });
+            }
             let code = registry::replay(&args[2]);
             std::process::exit(code);
         }
